@@ -50,7 +50,9 @@ Proof.
 Qed.
 
 Lemma hrev_J0 N ram disk L0 : 1 <= N -> 0 <= ram -> HRevBlk.HB ram HRevBlk.MTop 0 (N - 1) L0 ->
-  exists T W Rd, DiskBridge3.J N ram (map injH L0) KHRevolve ram disk T W Rd {| ob := ORevF KHRevolve N ram disk (init_r (map injH L0)); started := false |} mon0.
+  exists prev acts r, prevop L0 0 = Some prev /\ RevBlk.conv N 0 (Some prev) RevGen.init_c L0 = (acts, inl r) /\
+    DiskBridge3.J N ram (map injH L0) KHRevolve ram disk (RevBridge3.sumflen acts) (DiskBridge3.sumdw acts) (DiskBridge3.sumdr acts)
+      {| ob := ORevF KHRevolve N ram disk (init_r (map injH L0)); started := false |} mon0.
 Proof.
   intros HN Hram HB. set (L := map injH L0).
   pose proof (HB_nonempty _ _ _ _ _ HB) as Hne.
@@ -70,7 +72,7 @@ Proof.
   assert (Hsn : RevBlk.snaps c' = []).
   { destruct (RevBlk.snaps c') as [|z l] eqn:E; [reflexivity|]. exfalso.
     destruct (proj1 (Hss z) ltac:(rewrite E; left; reflexivity)) as [Hin|[]]. unfold RevBlk.keys in Hin. rewrite Hst in Hin. exact Hin. }
-  exists (RevBridge3.sumflen acts), (DiskBridge3.sumdw acts), (DiskBridge3.sumdr acts).
+  exists prev, acts, (c', Some lastop, length L0). split; [exact Hprev|]. split; [exact HR|].
   apply (DiskBridge3.Jrun N ram L KHRevolve ram disk (RevBridge3.sumflen acts) (DiskBridge3.sumdw acts) (DiskBridge3.sumdr acts) 0%nat init_c [] X0 0 0 0 false mon0).
   - lia.
   - reflexivity.
@@ -104,8 +106,8 @@ Proof.
   destruct (hrev_seq N ram disk uf ub wd rd L HN Hram Hram1 HL) as (L0 & -> & HB).
   unfold run_case, Sched.construct, RevConv.construct. rewrite HL. cbn [bind].
   destruct (Z.ltb_spec N 1); [lia|]. destruct (Z.ltb_spec ram (Z.min 1 (N - 1))); [lia|]. cbn [bind].
-  destruct (hrev_J0 N ram disk L0 HN Hram HB) as (T & W & Rd & HJ0).
-  pose proof (DiskBridge3.run_nexts2 N ram ltac:(lia) (map injH L0) KHRevolve ram disk T W Rd k _ _ HJ0) as Hrun.
+  destruct (hrev_J0 N ram disk L0 HN Hram HB) as (prev & acts & r & _ & _ & HJ0).
+  pose proof (DiskBridge3.run_nexts2 N ram ltac:(lia) (map injH L0) KHRevolve ram disk _ _ _ k _ _ HJ0) as Hrun.
   change (DiskBridge2.pD N ram) with (disk_xparams N ram) in Hrun.
   destruct (run_ops (disk_xparams N ram) _ mon0 (repeat Next k)) as [[s' m'] ls]. destruct Hrun as [HJ Hnr].
   eexists _, _, _. split; [reflexivity|]. split; [exact Hnr|]. exact (DiskBridge3.J_verdict _ _ _ _ _ _ _ _ _ _ _ HJ).
@@ -120,9 +122,9 @@ Proof.
   intros HN Hram Hram1 HL.
   destruct (hrev_seq N ram disk uf ub wd rd L HN Hram Hram1 HL) as (L0 & -> & HB).
   exists (2 * length L0 + 2)%nat. intros k Hk.
-  destruct (hrev_J0 N ram disk L0 HN Hram HB) as (T & W & Rd & HJ0).
-  pose proof (DiskBridge3.run_nexts2 N ram ltac:(lia) (map injH L0) KHRevolve ram disk T W Rd k _ _ HJ0) as Hrun.
-  pose proof (DiskBridge3.run_nexts2_fin N ram ltac:(lia) (map injH L0) KHRevolve ram disk T W Rd k _ _ HJ0) as Hfin.
+  destruct (hrev_J0 N ram disk L0 HN Hram HB) as (prev & acts & r & _ & _ & HJ0).
+  pose proof (DiskBridge3.run_nexts2 N ram ltac:(lia) (map injH L0) KHRevolve ram disk _ _ _ k _ _ HJ0) as Hrun.
+  pose proof (DiskBridge3.run_nexts2_fin N ram ltac:(lia) (map injH L0) KHRevolve ram disk _ _ _ k _ _ HJ0) as Hfin.
   change (DiskBridge2.pD N ram) with (disk_xparams N ram) in Hrun, Hfin.
   destruct (run_ops (disk_xparams N ram) _ mon0 (repeat Next k)) as [[s' m'] ls]. destruct Hrun as [HJ Hnr]. cbn [fst] in Hfin.
   split; [exact Hnr|]. split; [exact (DiskBridge3.J_verdict _ _ _ _ _ _ _ _ _ _ _ HJ)|]. apply Hfin. right.
